@@ -7,5 +7,5 @@ rsync -a --exclude target --exclude .git /repo/ $d/repo/
 (cd $d/repo && patch -p1 -s -i "$(realpath $1)/patch.diff")
 shift
 for p in "$@"; do
-  DASHU_REPO=$d/repo VERIF_OUT=$d/out /verif/check $p --tier quick 2>&1 | grep -v "^\[facts" | grep -E "^\s+\[R|VIOLATION|quick:|at " | cut -c1-900
+  DASHU_REPO=$d/repo VERIF_OUT=$d/out VERIF_CACHE=$d/cache /verif/check $p --tier quick 2>&1 | grep -v "^\[facts" | grep -E "^\s+\[R|VIOLATION|quick:|at " | cut -c1-900
 done
